@@ -28,6 +28,10 @@ REQUIRED_THEOREMS = [
     "normalize_in_domain", "normalize_idempotent", "normalize_moves_by_periods",
     "reflect_in_domain", "reflect_idempotent", "wrap_abs_le_half_period",
     "wrap_invariant_under_period_shift", "distance_symmetric", "periodic_flag_pairs_with_its_axis",
+    # grid-level statements / compositions about the definitions the driver evaluates
+    "grid_centres_and_dx", "cell_cart_cell", "cart_cell_cart_radius", "contained_in_all_coords",
+    "normalizePoint_contained", "distance_invariant_under_period_shift",
+    "distance_invariant_under_period_shift_grid", "distance_invariant_under_period_shift_cell",
 ]
 RULE = ("random grids of every class (UnitGrid, CartesianGrid 1-3d, PolarSymGrid, SphericalSymGrid, "
         "CylindricalSymGrid; 1..200 cells, dyadic and decimal bounds, negative bounds, scales 2^-100..2^100 / "
